@@ -439,6 +439,14 @@ func (g *Gen) unop(v *ssa.UnOp) {
 	case token.ARROW:
 		g.outOfSub = append(g.outOfSub, "channel receive")
 	case token.MUL:
+		if fa, ok := v.X.(*ssa.FieldAddr); ok {
+			for _, ff := range g.forbidFields {
+				st := deref(fa.X.Type())
+				if sts, ok := st.Underlying().(*types.Struct); ok && typeKey(st) == ff.Struct && sts.Field(fa.Field).Name() == ff.Field {
+					g.oblige("reads", g.srcOf(v.Pos(), "sel"), "not-"+ff.Field, []string{g.prop}, false, "false", v.Pos())
+				}
+			}
+		}
 		lv := g.addr(v.X)
 		g.nilCheck(lv.ref, v.X, v.Pos(), "star", "sel")
 		if lv.kind == "ref" {
